@@ -11,6 +11,7 @@ import random
 from .. import core, harness, vloop
 
 PROP = 'C03'
+TECHNIQUE = ('runtime monitoring: recorded callback/event history of generated FSM classes compared with a reference interpreter written from the documentation (history + executable model)')
 LEVEL = 'exploration'
 RULE = ("case = (FSM class spec: states, EVENTS rules incl. specific/any-state/forbidden, "
         "cond/enter/exit class methods and instance callbacks with scripted behaviour, chaining "
